@@ -2,6 +2,7 @@ import NixModel.Lemmas.C16Schema
 import NixModel.Lemmas.C16Rec
 import NixModel.Lemmas.C16Bytes
 import NixModel.Lemmas.C16Getitem
+import NixModel.Lemmas.C16Unfit
 import NixModel.Pure.FrameShape
 import NixModel.Generated.FrameShape
 /-!
@@ -397,6 +398,37 @@ theorem C16_refuses_unfit_cell (f : Frame) :
    fun _ _ _ _ _ _ _ hr hc hct he => refuse_writeCellName_cell hr hc hct he,
    fun _ _ _ _ _ hl hc hct hb => refuse_writeColumn_cell hl hc hct hb⟩
 
+/-- **a number an integer column cannot hold is refused by every write**: for every integer column type and every
+    number outside its range (300 or -1 for a `uint8` column, …) the conversion refuses it, and so does every write
+    that carries it — a row appended or overwritten (lists of cells or a structured array), an appended column of
+    that type, a cell or column overwritten — leaving the table unchanged.  (Until `fix:` ac50c5b NumPy scalars,
+    arrays and structured arrays were cast without a range check: `write_column([300, 5])` stored 44.) -/
+theorem C16_refuses_out_of_range_number (f : Frame) (t : ColType) (lo hi n : Int) (ht : t.range = some (lo, hi))
+    (hn : n < lo ∨ hi < n) :
+    conv t (.int n) = .error .valueError ∧
+    (∀ rows, (∃ r ∈ rows, ∃ j : Nat, f.types[j]? = some t ∧ r[j]? = some (.int n)) →
+      (∃ e, step f (.appendRows rows) = (f, some e)) ∧ ∀ idx, ∃ e, step f (.writeRows rows idx) = (f, some e)) ∧
+    (∀ r : RecArray, (∃ row ∈ r.rows, ∃ j : Nat, f.types[j]? = some t ∧ row[j]? = some (.int n)) →
+      ∃ e, stepR f (.appendRowsRec r) = (f, some e)) ∧
+    (∀ col name, Val.int n ∈ col → ∃ e, step f (.appendColumn col name (some t)) = (f, some e)) ∧
+    (∀ ri ci r c name, normIdx f.rows.length ri = some r → normIdx f.cols.length ci = some c →
+      f.cols[c]? = some (name, t) → step f (.writeCellPos (.int n) [ri, ci]) = (f, some .valueError)) ∧
+    (∀ col index name c nm, col.length = f.rows.length → colTarget f index name = some c →
+      f.cols[c]? = some (nm, t) → Val.int n ∈ col → ∃ e, step f (.writeColumn col index name) = (f, some e)) := by
+  have hc := conv_out_of_range ht n hn
+  refine ⟨hc, ?_, ?_, ?_, ?_, ?_⟩
+  · intro rows ⟨r, hr, j, h1, h2⟩
+    exact ⟨refuse_appendRows_cell ⟨r, hr, j, t, _, _, h1, h2, hc⟩,
+      fun idx => refuse_writeRows_cell ⟨r, hr, j, t, _, _, h1, h2, hc⟩⟩
+  · intro r ⟨row, hr, j, h1, h2⟩
+    exact refuse_appendRows_cell (rows := r.tuples) ⟨row, hr, j, t, _, _, h1, h2, hc⟩
+  · intro col name hm
+    exact refuse_appendColumn_cell ⟨_, hm, _, hc⟩
+  · intro ri ci r c name hr hcn hct
+    exact refuse_writeCellPos_cell hr hcn hct hc
+  · intro col index name c nm hl hcol hct hm
+    exact refuse_writeColumn_cell hl hcol hct ⟨_, hm, _, hc⟩
+
 -- ---------------------------------------------------------------------------------------
 -- creation variants, units
 
@@ -696,6 +728,9 @@ example : (stepR exFrame (.appendRowsRec ⟨[("a", .i8, 0)], [[.int 3]]⟩)).2 =
 example : getField exFrame "s" = .ok [.str "x", .str "y"] ∧ getSlice exFrame (some (-1)) none = [[.int 2, .str "y"]] ∧
     readColumnsGrouped exFrame (.ok [1, 1]) none none = .ok [[.str "x", .str "y"], [.str "x", .str "y"]] ∧
     getField exFrame "nope" = .error .indexError := ⟨rfl, rfl, rfl, rfl⟩
+/-- 300 and -1 are refused by a `uint8` column in every spelling -/
+example : conv .u8 (.int 300) = .error .valueError ∧ conv .u8 (.int (-1)) = .error .valueError ∧
+    conv .u8 (.int 256) = .error .valueError ∧ conv .u8 (.int 255) = .ok (.int 255) := ⟨rfl, rfl, rfl, rfl⟩
 /-- the stored form of the example frame holds bytes; the byte-level reads convert them back -/
 example : sReadRow (encFrame exFrame) (-1) = .ok [.int 2, .str "y"] ∧
     sReadCellName (encFrame exFrame) "s" 0 = .ok (.str "x") := by
